@@ -1446,6 +1446,8 @@ func lemmaUpdateThenNew(s *bufferSlice) {
 //@   requires bufOK(l)
 //@   ensures[C08] l.pinnedList.len == 0
 //@   at call (*sliceList).size#0 assume l.sliceList.len > 0 ==> l.sliceList.frontSlice != nil && wfHeader(l.sliceList.frontSlice) && (l.sliceList.len > 1 ==> l.sliceList.frontSlice.nextSlice != nil) && listOK(l.sliceList)
+//@   at call? (*bufferSlice).reset#0 check[C06] l.len == 0 && l.sliceList.len == 1 && a0 == l.sliceList.frontSlice && a0.isFromShm   // only a fully consumed, single shared-memory slice is rewound for reuse: no unread byte is dropped
+//@   at call? (*sliceList).popFront#0 check[C06] l.len == 0 && l.sliceList.len == 1   // likewise for the heap wrapper that is dropped
 //@   at call? putBackBufferSlice#0 check[C06] a0 != nil && !a0.isFromShm && a0 != l.sliceList.frontSlice && a0 != l.sliceList.backSlice && l.sliceList.len == 0
 
 // thin contracts used by Flush / close / clean (C05, C07, C09)
